@@ -9,6 +9,8 @@ hook_commits = [l.split()[0] for l in hooks if l and 'verif hook' in l]
 checks = []
 for pid in sorted(P):
     c = P[pid]
+    if c.get('pending'):
+        continue
     checks.append({
         "property_id": pid,
         "quick_cmd": f"./check {pid} --tier quick",
@@ -20,7 +22,7 @@ for pid in sorted(P):
         "level_note": c["level_note"],
         "technique": c.get("technique", "Lean 4 proof + differential correspondence"),
     })
-na = [{"property_id": p, "reason": "not claimed in this revision: model and check still under construction (see DESIGN.md §10 build order)"} for p in allp if p not in P]
+na = [{"property_id": p, "reason": "not claimed in this revision: " + (P[p]['pending'] if p in P else "model and check still under construction (see DESIGN.md §0.2)")} for p in allp if p not in P or P[p].get('pending')]
 m = {
     "version": 1,
     "setup_cmd": "./check setup",
